@@ -260,7 +260,7 @@ SCRIPTS = [s_union_order, s_literal_lookalike, s_literal_lookalike2, s_annotated
 
 def cases(tier, seed):
     out = []
-    reps = 2 if tier == 'quick' else 6
+    reps = 2 if tier == 'quick' else 16
     for sc in SCRIPTS:
         for k in range(reps):
             name = f'{sc.__name__}#{k}'
